@@ -1,12 +1,21 @@
 //! Logic related to the Carrier, the component in charge or sending/requesting transaction data from/to `bitcoind`.
 
+#[cfg(not(kani))]
 use std::collections::HashMap;
+#[cfg(kani)]
+use crate::verif_collections::HashMap;
 use std::sync::{Arc, Condvar, Mutex};
 
 use crate::responder::ConfirmationStatus;
 use crate::{errors, rpc_errors};
 
 use bitcoin::{Transaction, Txid};
+#[cfg(kani)]
+use crate::verif_bitcoind::{
+    Client as BitcoindClient, Error::JsonRpc as JsonRpcError, JError::Rpc as RpcError,
+    JError::Transport as TransportError, RpcApi,
+};
+#[cfg(not(kani))]
 use bitcoincore_rpc::{
     jsonrpc::error::Error::Rpc as RpcError, jsonrpc::error::Error::Transport as TransportError,
     Client as BitcoindClient, Error::JsonRpc as JsonRpcError, RpcApi,
@@ -465,3 +474,7 @@ mod tests {
         );
     }
 }
+
+#[cfg(kani)]
+#[path = "/verif/harness/teos/carrier.rs"]
+mod verif_harness;
